@@ -7,7 +7,7 @@
    table is an error of the case (the check then fails), never silently "unmapped". *)
 From Coq Require Export String Uint63.
 From Coq Require Import Ascii ZArith.
-From FB Require Export C07.Model C07.Spec C07.Tree Base.Run.
+From FB Require Export C07.Model C07.Spec C07.Tree C07.BridgeDefs Base.Run.
 
 (* Strings of a case are written as Coq string literals (UTF-8) — Coq reads those far faster than
    lists of numerals — and decoded to code points here. *)
@@ -76,9 +76,14 @@ Inductive case :=
     (* entry names of the input jar, in order -> entry names of the remapped jar, in order *)
 | CRefs (cs : ctable) (fs ms : mtable) (this : str) (l : list obs)
     (* one class (original name [this]): every reference position *)
-| CTree (cs : ctable) (fs ms : mtable) (tin : dbg) (tout : res dbg)
+| CTree (cs : ctable) (fs ms : mtable) (tin : dbg) (tout : res dbg) (wr : option (list N * list (list Z)))
     (* one whole class tree as handed to remap_class, and what remap_class returned; the tables are
-       every question the call put to the remapper, with its answer *)
+       every question the call put to the remapper, with its answer.  [wr]: the bytes duke::write_class
+       produced for the returned tree and, per method, the offsets of its instructions in the written code
+       array (C07/BridgeDefs.v check_written: the conclusion of Bridge.written_operands on the implementation) *)
+| CJar (cs : ctable) (es : list (str * (bool * N))) (out : res (list (str * (N * N))))
+    (* the entries of the input jar in order (name, is a directory, checksum of the content) and the entries of the
+       ParsedJar `remap` returned: name, kind (0 directory, 1 class, 2 other), checksum of the content of an `other` entry *)
 | CBad.
     (* a case text that does not decode *)
 
@@ -88,7 +93,8 @@ Inductive case :=
    literal (numbers in decimal):
 
      case   ::= pool ( 'N' ctable strs ( 'E' | 'O' strs ) | 'R' ctable mtable mtable str obss
-                     | 'T' ctable mtable mtable dbg ( 'E' | 'O' dbg ) )
+                     | 'J' ctable count ';' ( str ( 'd' | 'f' ) num ';' )* ( 'E' | 'O' count ';' ( str num ';' num ';' )* )
+                     | 'T' ctable mtable mtable dbg ( 'E' | 'O' dbg [ 'W' bytecount ';' bytes count ';' ( count ';' ( num ';' )* )* ] ) )
      dbg    ::= 'a' str | 'q' str | 'k' str count ';' ( str dbg )* | 'f' str strs | 'l' count ';' dbg* | 't' count ';' dbg*
      pool   ::= count ';' strlit*                      strings referred to by '#' index ';'
      strlit ::= 's' bytecount ':' utf8-bytes | 'c' count ':' ( codepoint ',' )*
@@ -199,11 +205,35 @@ Definition p_case : P case :=
     | 82 :: r =>
         (pdo cs <- p_ctable pool; pdo fs <- p_mtable pool; pdo ms <- p_mtable pool; pdo this <- p_str pool;
          pdo l <- p_counted (p_obs pool); p_ret (CRefs cs fs ms this l)) r
+    | 74 :: r =>
+        (pdo cs <- p_ctable pool;
+         pdo es <- p_counted (pdo n <- p_str pool;
+                              fun l1 => match l1 with
+                                        | 100 :: r1 => (pdo h <- p_num; pdo _ <- p_char 59; p_ret (n, (true, h))) r1
+                                        | 102 :: r1 => (pdo h <- p_num; pdo _ <- p_char 59; p_ret (n, (false, h))) r1
+                                        | _ => None
+                                        end);
+         fun l' => match l' with
+                   | 69 :: r' => Some (CJar cs es Err, r')
+                   | 79 :: r' =>
+                       (pdo out <- p_counted (pdo n <- p_str pool; pdo k <- p_num; pdo _ <- p_char 59; pdo h <- p_num; pdo _ <- p_char 59;
+                                              p_ret (n, (k, h)));
+                        p_ret (CJar cs es (Ok out))) r'
+                   | _ => None
+                   end) r
     | 84 :: r =>
         (pdo cs <- p_ctable pool; pdo fs <- p_mtable pool; pdo ms <- p_mtable pool; pdo tin <- p_dbg dbg_fuel pool;
          fun l' => match l' with
-                   | 69 :: r' => Some (CTree cs fs ms tin Err, r')
-                   | 79 :: r' => (pdo tout <- p_dbg dbg_fuel pool; p_ret (CTree cs fs ms tin (Ok tout))) r'
+                   | 69 :: r' => Some (CTree cs fs ms tin Err None, r')
+                   | 79 :: r' =>
+                       (pdo tout <- p_dbg dbg_fuel pool;
+                        fun l2 => match l2 with
+                                  | 87 :: r2 =>
+                                      (pdo n <- p_num; pdo _ <- p_char 59; pdo b <- p_take (N.to_nat n);
+                                       pdo pos <- p_counted (p_counted (pdo x <- p_num; pdo _ <- p_char 59; p_ret (Z.of_N x)));
+                                       p_ret (CTree cs fs ms tin (Ok tout) (Some (b, pos)))) r2
+                                  | _ => Some (CTree cs fs ms tin (Ok tout) None, l2)
+                                  end) r'
                    | _ => None
                    end) r
     | _ => None
@@ -356,10 +386,11 @@ Definition class_t : rty := TName "ClassFile".
 (* the tree handed to remap_class is a well-typed class; the interpreter of the regenerated table
    computes the tree remap_class returned; and when the class has nothing at the positions of the
    known findings, so does the specification *)
-Definition check_tree (R : remapper) (tin : dbg) (tout : res dbg) : bool :=
+Definition check_tree (R : remapper) (tin : dbg) (tout : res dbg) (wr : option (list N * list (list Z))) : bool :=
   match of_dbg type_defs class_t tin with
   | Ok vi =>
       has_ty type_defs class_t vi &&
+      (match wr with Some (b, pos) => check_written R vi b pos | None => true end) &&
       match tout with
       | Ok dout =>
           match of_dbg type_defs class_t dout with
@@ -384,7 +415,18 @@ Definition check (c : case) : bool :=
                | Ok l => Ok (map fst l)
                | Err => Err
                end) out
+  | CJar cs es out =>
+      (* the content of a class is not looked into here (rc = the identity on its checksum): names, kinds, and the
+         content of the entries that are no classes *)
+      let R := remapper_of cs [] [] in
+      let obs (o : str * content (list N)) : str * (N * N) :=
+        (fst o, match snd o with KDir => (0, 0) | KClass _ => (1, 0) | KOther d => (2, match d with [h] => h | _ => 0 end) end) in
+      res_eqb (list_eqb (fun a b => str_eqb (fst a) (fst b) && N.eqb (fst (snd a)) (fst (snd b)) && N.eqb (snd (snd a)) (snd (snd b))))
+              (match remap_jar R (fun d => Ok d) (map (fun e => (fst e, (fst (snd e), [snd (snd e)]))) es) with
+               | Ok l => Ok (map obs l)
+               | Err => Err
+               end) out
   | CRefs cs fs ms this l => forallb (check_obs (remapper_of cs fs ms) this) l
-  | CTree cs fs ms tin tout => check_tree (remapper_of cs fs ms) tin tout
+  | CTree cs fs ms tin tout wr => check_tree (remapper_of cs fs ms) tin tout wr
   | CBad => false
   end.
